@@ -11,6 +11,9 @@
 (*   clause 1  |lat_ref| <= 90 and dref < 0.95 * R(kind)  =>  some and      *)
 (*             err_mm <= 10 000 (the ruler compares longitudes modulo 360); *)
 (*             R = 180 NM airborne, 45 NM surface.  Not required            *)
+(*             - for a reference longitude beyond +-1000 degrees (the       *)
+(*               absurd references of clause 2: an f64 that large cannot    *)
+(*               carry a position to 10 m; two turns of the globe can),     *)
 (*             - at a NearThreshold latitude (float vs exact NL), and       *)
 (*             - for surface positions beyond SurfCap (88.9 deg): there the *)
 (*               90-degree longitude zone of NL = 1 is narrower than a      *)
@@ -22,6 +25,12 @@
 (*             latitude (NL from the decimal table, the wider zone when the *)
 (*             latitude is within 1 micro-degree of a transition), each     *)
 (*             + 2 micro-degrees for the rounding of the logged values.     *)
+(*             Longitudes are compared modulo 360 degrees (a decoder that   *)
+(*             normalised its output would denote the same points).  Where  *)
+(*             a longitude is too large for micro-degree integers (|x| >    *)
+(*             1000 degrees: the absurd references) the comparison uses the *)
+(*             ruler's dlonm = |lon - lon_ref| mod 360 (exact f64           *)
+(*             subtraction and fmod), + 1 micro-degree.                     *)
 (*   A panic is never allowed.                                              *)
 EXTENDS CPR, TraceBase
 
@@ -37,6 +46,7 @@ Bound(ev) ==
 
 InRangeRef(ev) ==
   /\ Abs(MicroOf(ev.rlat)) <= 90000000
+  /\ SmallMicro(ev.rlon)
   /\ ev.dref < 95 * (RangeMM(ev.kind) \div 100)
 Obliged(ev) ==
   /\ InRangeRef(ev)
@@ -44,9 +54,12 @@ Obliged(ev) ==
   /\ ~(ev.kind = "surf" /\ Abs(ev.L) > SurfCap)
 
 NearRef(ev, r) ==
-  /\ IsMicro(r.lat) /\ IsMicro(r.lon)
+  /\ IsMicro(r.lat) /\ IsMicro(r.lon) /\ IsMicro(r.dlonm)
   /\ DiffMicro(r.lat, ev.rlat) <= HalfZoneLatMicro(ev.kind, ev.i) + 2
-  /\ DiffMicro(r.lon, ev.rlon) <= HalfZoneLonMicro(ev.kind, ev.i, MicroOf(r.lat)) + 2
+  /\ LET half == HalfZoneLonMicro(ev.kind, ev.i, MicroOf(r.lat))
+     IN  IF SmallMicro(r.lon) /\ SmallMicro(ev.rlon)
+         THEN DiffMicroMod360(r.lon, ev.rlon) <= half + 2
+         ELSE MicroOf(r.dlonm) <= half + 1
 
 Why(ev) ==
   IF ~Bound(ev) THEN "binding"
